@@ -214,6 +214,7 @@ class SimFS(object):
         self.log = []
         self.writes = []           # rel paths opened for writing, in order (write log)
         self.reads = []            # rel paths opened for reading
+        self.copied = set()        # rel paths that are verbatim copies of files from outside (theme assets)
         self.passthrough = 0
         self.installed = False
         self.marks = {}
@@ -324,7 +325,9 @@ class SimFS(object):
                 if rel is not None and not fs.passthrough:
                     fs.event('copy', rel, os.path.basename(os.fspath(src)))
                     d = os.fspath(dst)
-                    fs.writes.append(os.path.join(rel, os.path.basename(os.fspath(src))) if os.path.isdir(d) else rel)
+                    target = os.path.join(rel, os.path.basename(os.fspath(src))) if os.path.isdir(d) else rel
+                    fs.writes.append(target)
+                    fs.copied.add(target)
                 fs.passthrough += 1
                 try:
                     return _real[kind](src, dst, *a, **kw)
